@@ -17,7 +17,7 @@ def queries(ctx):
         for mode in (0, 1):
             qs.append(Q("counter_m%d_t%d" % (mode, nt), ["hc.c", "repo:" + U], defs=["NT=%d" % nt, "MODE=%d" % mode], unwind=8, engine="T", native=False,
                         object_bits=12, info=dict(info, bounds={"threads": nt}), tiers=tiers, timeout=3000))
-        qs.append(Q("mask_t%d" % nt, ["hm.c", "repo:" + U], defs=["NT=%d" % nt], unwind=8, engine="T", native=False, object_bits=12,
+        qs.append(Q("mask_t%d" % nt, ["hm.c", "repo:" + U], defs=["NT=%d" % nt], unwind=nt + 7, engine="T", native=False, object_bits=12,
                     info=dict(info, bounds={"threads": nt}), tiers=tiers, timeout=3000))
     return qs
 def mutants(ctx):
